@@ -3,6 +3,19 @@
 ZSTD = "zstd crate: decompress(compress(x)) = x and context-history independence (exercised, not proved)"
 
 PROPS = {
+    "C03": {
+        "level": "proof",
+        "assumptions": [
+            "Model/{CollVarint,Zigzag,Names,Details}.lean mirror ragc-common/src/collection.rs (prefix varint, predictive "
+            "zigzag, sample/contig-name codecs, 5-stream descriptor codec with the in_group_ids predictor table, "
+            "register_sample_contig/add_segment_placed, 50-sample batches with the samples_loaded cursor) in release-profile "
+            "arithmetic; tied by byte-exact correspondence through the #[cfg(ragc_verif)] wrappers (hook H1)",
+            "ZSTD and the archive container are the identity in the model (C12/C13); the real store_*/load_* path through "
+            "an archive file is exercised by the harness",
+            "the predictor Vec<i32> is modelled as a finite map with default -1 (its 1.2x growth only affects memory)",
+        ],
+        "trusted": [ZSTD],
+    },
     "C20": {
         "level": "proof",
         "assumptions": [
